@@ -345,7 +345,7 @@ impl Engine for VcConfig {
         Box::new(v.into_iter())
     }
     fn bound(&self, _tier: Tier) -> String {
-        "C16: every assignment of {unset,v1,v2} to the 4 layers for each of 9 keys (7 scalar keys + 2 environment variables) and jointly for every pair of keys (3^8 x 36); DocumentConfig: all 3^10 assignments of (shell,total_timeout,prepend,append,defaults.output_stream) to the layers doc and cli over the format default; parse level: inline x front-matter defaults for every key pair on Markdown and Cram base; command line: all 27 assignments of {unset,v1,v2} to (flag, inline, document defaults) for output_stream and keep_crlf on a Markdown document and all flag values on a Cram document, all 9 assignments of (flag, front-matter) for `shell` and all 16 for `total_timeout` over {unset, 1 s, 3 s, 0 s = no limit}, through `scrut test -r json`. C17: all 256 key subsets with base values; every value of every key alphabet alone and with each other key; all pairs of 17 environment values; timeout x wait product; document configs over shell/timeout/prepend/append/defaults alphabets; routes: one-liner through the Markdown parser, serde_yaml round trip, front-matter through the parser. Same bound in quick and thorough (the space is small enough to be run completely every time).".into()
+        "C16: every assignment of {unset,v1,v2} to the 4 layers for each of 9 keys (7 scalar keys + 2 environment variables) and jointly for every pair of keys (3^8 x 36); DocumentConfig: all 3^10 assignments of (shell,total_timeout,prepend,append,defaults.output_stream) to the layers doc and cli over the format default; parse level: inline x front-matter defaults for every key pair on Markdown and Cram base; command line: all 27 assignments of {unset,v1,v2} to (flag, inline, document defaults) for output_stream and keep_crlf on a Markdown document and all flag values on a Cram document, all 9 assignments of (flag, front-matter) for `shell` and all 16 for `total_timeout` over {unset, 1 s, 8 s, 0 s = no limit} against a 2.5 s command, through `scrut test -r json`. C17: all 256 key subsets with base values; every value of every key alphabet alone and with each other key; all pairs of 17 environment values; timeout x wait product; document configs over shell/timeout/prepend/append/defaults alphabets; routes: one-liner through the Markdown parser, serde_yaml round trip, front-matter through the parser. Same bound in quick and thorough (the space is small enough to be run completely every time).".into()
     }
     fn rule(&self, p: &str) -> String {
         if p == "C16" {
@@ -526,18 +526,18 @@ impl Engine for VcConfig {
                     want_kind = "success";
                     describe = format!("shell: command line={cli} document={doc} (0 unset) -> TESTSHELL={effective}");
                 } else {
-                    let secs = [0u64, 1, 3, 0];
+                    let secs = [0u64, 1, 8, 0]; // wide margins on both sides of the 2.5 s command: wall-clock cases must not flip under load
                     if *doc > 0 {
                         text.push_str(&format!("---\ntotal_timeout: {}s\n---\n\n", secs[*doc as usize]));
                     }
-                    text.push_str("# Title\n\n```scrut\n$ sleep 2\n```\n");
+                    text.push_str("# Title\n\n```scrut\n$ sleep 2.5\n```\n");
                     if *cli > 0 {
                         args.push("--timeout-seconds".into());
                         args.push(secs[*cli as usize].to_string());
                     }
                     let effective = if *cli > 0 { secs[*cli as usize] } else if *doc > 0 { secs[*doc as usize] } else { 900 };
                     want_kind = if effective == 1 { "timeout" } else { "success" };
-                    describe = format!("total_timeout: command line={cli} document={doc} (0 unset, 1 = 1 s, 2 = 3 s, 3 = 0 s i.e. no limit) on `sleep 2` -> effective {effective} s");
+                    describe = format!("total_timeout: command line={cli} document={doc} (0 unset, 1 = 1 s, 2 = 8 s, 3 = 0 s i.e. no limit) on `sleep 2.5` -> effective {effective} s");
                 }
                 sb.write("doc.md", text.as_bytes());
                 args.push("doc.md".into());
